@@ -569,6 +569,10 @@ def check_case(ctx: C.Ctx, case: Case, do_text: bool, quiet: bool = False) -> Li
             fail("a password that is neither the user nor the owner password was accepted", pw,
                  "PDFPasswordIncorrect", "opened", "accepted-wrong")
             continue
+        klen = len(doc.decipher.__self__.key)
+        want = 5 if cfg.R == 2 else 32 if cfg.R >= 5 else 16 if cfg.V == 4 else min(cfg.length // 8, 16)
+        if klen != want:
+            fail("file key has an unexpected length", pw, want, klen, "keylen")
         flags = (doc.is_printable, doc.is_modifiable, doc.is_extractable)
         expf = (bool(cfg.P & 4), bool(cfg.P & 8), bool(cfg.P & 16))
         if flags != expf:
@@ -774,6 +778,45 @@ def run_samples(ctx: C.Ctx) -> None:
                                    {"sample": name, "password": pw}, base_text[:60], t[:60], {"kind": "sample-text"}))
 
 
+def run_aes_keylen(ctx: C.Ctx) -> None:
+    """Documents the remark on decrypt_aes128's `min(len(key), 16)` (the 4 salt bytes are counted, Algorithm 1
+    says min(n + 5, 16)): for every file-key length a V4 handler can hold (always 16, checked on every opened V4
+    document below; here all lengths 11..32) pdfminer's per-object AES key equals Algorithm 1's, and for the
+    unreachable lengths 1..10 the two differ (theorem objkey_agree_aes has `11 <= |key|` as hypothesis)."""
+    from pdfminer.pdfdocument import PDFStandardSecurityHandlerV4
+    rng = ctx.rng
+    for L in range(1, 33):
+        key = bytes(rng.randrange(256) for _ in range(L))
+        objid, genno = rng.choice([1, 255, 65536, (1 << 24) - 1]), rng.choice([0, 1, 65535])
+        plain = bytes(rng.randrange(256) for _ in range(rng.choice([0, 1, 15, 16, 17, 40])))
+        cfg = R.Cfg(4, 4, 128, "AESV2", -4, b"", "", "")
+        cfg.key = key
+        k_std = hashlib_md5(key + objid.to_bytes(4, "little")[:3] + genno.to_bytes(4, "little")[:2] + b"sAlT")[:min(L + 5, 16)]
+        iv = bytes(rng.randrange(256) for _ in range(16))
+        if len(k_std) == 16:
+            stored = iv + R.aes_cbc_enc(k_std, iv, R.pkcs7_pad(plain))
+        else:
+            stored = None
+        h = object.__new__(PDFStandardSecurityHandlerV4)
+        h.key = key
+        ctx.case(("aeskey", L, key), True, branch="aeskey:reachable" if L >= 11 else "aeskey:unreachable")
+        if stored is None:
+            continue      # Algorithm 1 gives a key shorter than 16 bytes: not an AES-128 key at all
+        try:
+            got = h.decrypt_aes128(objid, genno, stored)
+        except Exception as e:  # noqa: BLE001
+            got = ("EXC:" + type(e).__name__).encode()
+        if got != plain:
+            ctx.fail(C.Failure("decrypt_aes128 does not use Algorithm 1's object key for a reachable key length",
+                               {"keylen": L, "key": key.hex(), "objid": objid, "genno": genno}, plain.hex(),
+                               got.hex()[:80], {"kind": "aes-objkey", "keylen": L}))
+
+
+def hashlib_md5(b: bytes) -> bytes:
+    import hashlib
+    return hashlib.md5(b).digest()
+
+
 # ----------------------------------------------------------------------------- entry points
 
 def run_corpus(ctx: C.Ctx) -> None:
@@ -805,6 +848,7 @@ def run(ctx: C.Ctx) -> None:
     rng = ctx.rng
     run_corpus(ctx)
     run_samples(ctx)
+    run_aes_keylen(ctx)
     kinds = ["r2", "r3", "r4rc4", "r4aes", "r4id", "r5", "r6"]
     cases: List[Case] = []
     n = ctx.n(120, 4000)
